@@ -69,7 +69,7 @@ PROPS = {
                      "radix / leading zeros / negative decimal with the same bit pattern / OFFSET of a label with that offset for every constant, amount and kind of "
                      "white space and line breaks): the real assembler must emit identical code and data lists for both (or refuse both with the same diagnostic) and "
                      "agree with the model; non-trivial = the two renderings differ textually"),
-    "C12": dict(modules=["Emu8086.Props.C12"], runs=[("l3", "data"), ("l4", "data"), ("l4", "dataref"), ("l2", "mov+xfer")], gen=["Arch", "ILiterals", "PPGrammar"],
+    "C12": dict(modules=["Emu8086.Props.C12", "Emu8086.Props.C12Text"], runs=[("l3", "data"), ("l4", "data"), ("l4", "dataref"), ("l2", "mov+xfer")], gen=["Arch", "ILiterals", "PPGrammar"],
                 rule="random SET/DB/DW sequences of all four kinds (values over the full signed/unsigned ranges, arrays 0..65535 elements incl. segment overflow, "
                      "strings with every printable character, segments up to FFFFh so that data crosses the 1 MB wrap); L3: emitted data lines, label offsets, OFFSET "
                      "values vs model; L4: the WHOLE memory image after loading (all non-zero bytes, via the verification hook) and `print mem` output vs the model's loader"),
